@@ -1,9 +1,82 @@
 import DspVerif.Driver.Proto
-/-! driver handlers for C01 (stub: no correspondence cases handled yet) -/
+import DspVerif.Model.Fft
+/-! driver handlers for C01: the forward transform family run at `Float` -/
 namespace Dsp.Driver
-open Dsp.Proto
+open Dsp.Proto Dsp.Fft
+
+/-- the literals as written in the source (regenerated) -/
+def lits : Lits Float := ⟨Gen.fft8_c0, Gen.rfft8_c0, Gen.dft3_c0⟩
+
+def reOf (a : Array Float) : Nat → Float := fun i => a.getD i 0.0
+
+/-- splitmix-style generator shared with `harness/c01.cpp` (`mix`, `gen_re`, `gen_im`) -/
+def mix (m s : UInt64) : UInt64 :=
+  let z := (m + 1) * 0x9e3779b97f4a7c15 + s * 0xbf58476d1ce4e5b9
+  let z := z ^^^ (z >>> 29)
+  let z := z * 0x94d049bb133111eb
+  z ^^^ (z >>> 32)
+
+def genRe (m s : UInt64) : Float := (Float.ofNat ((mix m s) % 4001).toNat - 2000.0) / 2048.0
+def genIm (m s : UInt64) : Float := (Float.ofNat (((mix m s) >>> 20) % 4001).toNat - 2000.0) / 2048.0
+
+/-- `digest` of `harness/c01.cpp`: 8 bins + 4 weighted sums -/
+def digest (y : Array (Cx Float)) : String :=
+  let n := y.size
+  let z : Cx Float := ⟨0.0, 0.0⟩
+  let bins := (List.range 8).map (fun i =>
+    let k := ((i * n) / 8 + (i % 3)) % n
+    let v := y.getD k z
+    fmtF v.re ++ " " ++ fmtF v.im)
+  let init : Array Float := #[0.0, 0.0, 0.0, 0.0, 0.0, 0.0, 0.0, 0.0]
+  let acc := (List.range n).foldl (fun (a : Array Float) k =>
+    let v := y.getD k z
+    let g0 : Float := 1.0
+    let g1 : Float := if k % 2 == 1 then -1.0 else 1.0
+    let g2 : Float := Float.ofNat (k % 7) - 3.0
+    let g3 : Float := Float.ofNat ((k * k) % 5) - 2.0
+    #[a[0]! + v.re * g0, a[1]! + v.im * g0, a[2]! + v.re * g1, a[3]! + v.im * g1,
+      a[4]! + v.re * g2, a[5]! + v.im * g2, a[6]! + v.re * g3, a[7]! + v.im * g3]) init
+  toString n ++ " " ++ String.intercalate " " bins ++ " " ++ fmtFloats acc.toList
+
+/-- `eps(v)`: distance to the next double towards +inf -/
+def epsOf (v : Float) : Float :=
+  let b := v.toBits
+  let nx : Float := if v == 0.0 then Float.ofBits 1 else if v > 0.0 then Float.ofBits (b + 1) else Float.ofBits (b - 1)
+  nx - v
 
 def h01 : List String → Option String
+  | "fft" :: rest => do
+    let (x, _) ← takeCxs rest
+    some (fmtCxArr (toArray x.size (fftC lits x.size (ofArray x))))
+  | "rfft" :: rest => do
+    let (x, _) ← takeFloats rest
+    some (fmtCxArr (toArray x.size (fftR lits x.size (reOf x))))
+  | "fftn" :: np :: rest => do
+    let np ← np.toNat?
+    let (x, _) ← takeCxs rest
+    some (fmtCxArr (toArray np (fftCN lits x.size np (ofArray x))))
+  | "rfftn" :: np :: rest => do
+    let np ← np.toNat?
+    let (x, _) ← takeFloats rest
+    some (fmtCxArr (toArray np (fftRN lits x.size np (reOf x))))
+  | "fftg" :: n :: s :: _ => do
+    let n ← n.toNat?
+    let s ← s.toNat?
+    let x : Array (Cx Float) := Array.ofFn (n := n) (fun i => ⟨genRe i.val.toUInt64 s.toUInt64, genIm i.val.toUInt64 s.toUInt64⟩)
+    some (digest (toArray n (fftC lits n (ofArray x))))
+  | "rfftg" :: n :: s :: _ => do
+    let n ← n.toNat?
+    let s ← s.toNat?
+    let x : Array Float := Array.ofFn (n := n) (fun i => genRe i.val.toUInt64 s.toUInt64)
+    some (digest (toArray n (fftR lits n (reOf x))))
+  | "czt" :: m :: wr :: wi :: ar :: ai :: rest => do
+    let m ← m.toNat?
+    let w : Cx Float := ⟨← parseF wr, ← parseF wi⟩
+    let a : Cx Float := ⟨← parseF ar, ← parseF ai⟩
+    let (x, _) ← takeCxs rest
+    let d : Cx Float := ⟨a.re - 1.0, a.im⟩
+    let skipA := !(Float.sqrt (d.re * d.re + d.im * d.im) > epsOf a.re)
+    some (fmtCxArr (toArray m (czt (fftPow2 lits) x.size m w a skipA (ofArray x))))
   | _ => none
 
 end Dsp.Driver
